@@ -23,6 +23,10 @@ RULE = ('Hypothesis draws a lexicon L (few own relations) and expand lexicons E1
         'the expand lexicon\'s source/target/lexicon; targets without ILI are dropped, targets '
         'without local counterpart become placeholders; hypernym_paths() through chains of '
         'placeholders equals the reference enumeration of maximal simple paths on the mapped graph. '
+        'Sub dependency-specifier-chars: a lexicon requiring a provider whose version is not a plain '
+        'token (space, GLOB characters), decoy lexicons that the version would select if it were '
+        'read as a specifier list, any install order: expanded_lexicons() is exactly the provider, no '
+        'warning. '
         'Non-trivial: some synset has an expanded relation whose target maps to 0 (placeholder), '
         '>= 2 synsets, or is dropped; distinct by (lexicons, configuration).')
 ASSUMPTIONS = [
@@ -280,6 +284,66 @@ def oracle(case):
     return out
 
 
+# -- declared dependencies whose version is not a plain token --------------------------------
+
+_ODD_VERSIONS = ['1.0[rc]', '2021 beta', '1.*', 'v?', 'a b', '[1]', '1']
+
+
+def _mini(lid, ver, ili, requires=None):
+    d = {'id': lid, 'version': ver, 'label': lid, 'language': 'en', 'email': 'e', 'license': 'l',
+         'meta': None, 'synsets': [{'id': f'{lid}-s0', 'ili': ili, 'partOfSpeech': 'n',
+                                    'meta': None}]}
+    if requires:
+        d['requires'] = requires
+    return d
+
+
+@st.composite
+def _dep_cases(draw):
+    ver = draw(st.sampled_from(_ODD_VERSIONS))
+    # decoys: what the version would select if it were read as a specifier / pattern list
+    decoys = [('P', '1.0r'), ('P', '1.0c'), ('P', '1.x'), ('P', 'v1'), ('P', '1'), ('P', 'a'),
+              ('beta', '1'), ('b', '1')]
+    chosen = [d for d in decoys if d != ('P', ver) and draw(st.booleans())]
+    lexs = [_mini('P', ver, 'i1')] + [_mini(i, v, 'i1') for i, v in chosen]
+    L = _mini('L', '1', 'i1', [{'id': 'P', 'version': ver}])
+    order = draw(st.permutations(lexs + [L]))
+    return {'docs': list(order), 'provider': ['P', ver]}
+
+
+def _dep_classify(case):
+    tags = {'version:' + case['provider'][1]}
+    if len(case['docs']) > 2:
+        tags.add('decoys')
+    if case['docs'][0]['id'] == 'L' or [d['id'] for d in case['docs']].index('L') < \
+            [(d['id'], d['version']) for d in case['docs']].index(tuple(case['provider'])):
+        tags.add('dependent-added-first')
+    return True, sorted(tags)
+
+
+def _dep_oracle(case):
+    import warnings
+    import wn
+    env.fresh_db()
+    for d in case['docs']:
+        wn.add_lexical_resource({'lmf_version': '1.1', 'lexicons': [d]}, progress_handler=None)
+    out = []
+    with warnings.catch_warnings(record=True) as caught:
+        warnings.simplefilter('always')
+        w = observe.call(wn.Wordnet, 'L:1')
+    if _raised(w):
+        return [Disc('dependency:wordnet-raises', "Wordnet('L:1')", 'a Wordnet', w,
+                     note=str(case['provider']))]
+    got = [[x.id, x.version] for x in w.expanded_lexicons()]
+    if got != [case['provider']]:
+        out.append(Disc('dependency:expanded-lexicons', "Wordnet('L:1').expanded_lexicons()",
+                        [case['provider']], got))
+    if caught:
+        out.append(Disc('dependency:unexpected-warning', "Wordnet('L:1')", [],
+                        [str(c.message) for c in caught]))
+    return out
+
+
 def _sample(case):
     return {'order': case['order'], 'selection': case['selection'], 'expand': case['expand'],
             'lexicons': {k: {'requires': v.get('requires'),
@@ -290,6 +354,9 @@ def _sample(case):
 
 
 SUBS = [
+    Sub('dependency-specifier-chars', _dep_oracle, _dep_classify,
+        strategy=lambda tier: _dep_cases(), budget={'quick': 40, 'thorough': 600},
+        sample=lambda c: c, fingerprint=lambda c: fingerprint(c)),
     Sub('expand', oracle, _classify, strategy=lambda tier: _cases(),
         budget={'quick': 500, 'thorough': 6000}, sample=_sample, case_timeout=120,
         fingerprint=lambda c: fingerprint(c),
